@@ -13,7 +13,7 @@ PROP = "C20"
 LEAN_MODULES = ["Props.C20"]
 RULE = (
     "case = (register type with 0-5 user-defined properties over mixed field kinds, names chosen to sort before / "
-    "between / after the framework's own property names; a subclass, a second subclass that adds a property of its own, and an unrelated type (in four cases out of ten the views of the other types are asked for first); a file with 0-10 "
+    "between / after the framework's own property names; a subclass, a second subclass that adds a property of its own and overrides the first inherited one, and an unrelated type (in four cases out of ten the views of the other types are asked for first); a file with 0-10 "
     "registers of the type interleaved with other types and free-text lines; None in any position). Observed on the "
     "real code: Register.custom_properties, list(df.columns), df.shape[0], every cell (null-aware, numbers as "
     "doubles), and - after overwriting every cell of the frame - whether the registers' data is unchanged. Judged by "
